@@ -20,7 +20,9 @@ fn worlds(thorough: bool) -> Vec<Built> {
     let roots = stdworlds::std_roots();
     let mut v = vec![stdworlds::build_with_roots(&stdworlds::std_spec("c08-std-dfd", [Enc::Dynamic, Enc::Fixed, Enc::Dynamic], 3000, 300), &roots)];
     v.push(stdworlds::build_with_roots(&stdworlds::chain_spec("c08-chain-fdf", [Enc::Fixed, Enc::Dynamic, Enc::Fixed], 100, 0), &stdworlds::chain_roots()));
+    v.push(stdworlds::build_with_roots(&stdworlds::chain_spec_at("c08-chain-low", [Enc::Dynamic, Enc::Fixed, Enc::Dynamic], 3000, 300, -112640), &stdworlds::chain_roots()[1..]));
     if thorough {
+        v.push(stdworlds::build_with_roots(&stdworlds::chain_spec_at("c08-chain-high", [Enc::Fixed, Enc::Dynamic, Enc::Fixed], 100, 2500, 225280), &stdworlds::chain_roots()));
         let ts1_roots: Vec<(&'static str, Vec<Op>)> = vec![
             ("fresh", vec![]),
             ("funded", vec![Op::Inc { pos: 0, liq: stdworlds::BIG * 1000, v2: false }, Op::Inc { pos: 1, liq: stdworlds::BIG * 100, v2: true }, Op::Inc { pos: 2, liq: stdworlds::BIG * 100, v2: true }]),
@@ -33,6 +35,10 @@ fn worlds(thorough: bool) -> Vec<Built> {
 }
 
 fn alphabet(b: &Built) -> Vec<Op> {
+    stdworlds::shift_repos(alphabet0(b), stdworlds::origin_of(&b.w))
+}
+
+fn alphabet0(b: &Built) -> Vec<Op> {
     let n = b.w.positions.len() as u8;
     let mut a = vec![];
     for pos in 0..n {
